@@ -13,7 +13,8 @@ N_CASES = {"quick": 70, "thorough": 1200}
 def run_at(T, data, p):
     s = RecordingStream(data, p)
     try:
-        obj = T(s)
+        with engine.guard():
+            obj = T(s)
     except Exception as e:  # noqa: BLE001
         return ("err", e, None, s)
     return ("ok", obj, s.position(), s)
